@@ -102,12 +102,20 @@ def skip_loop(F):
     rec(top_if["then"], [])
     r.count("loop_exits", n_exits)
     # the skip test reads the *current* function: contains(&curr_fid) where curr_fid = get_curr_func().0 refreshed after each increment
+    def reads_current(e):
+        """reads the function at the cursor: get_curr_func(), another accessor on self, or metadata[curr_idx]"""
+        for x in walk(e):
+            if x.get("k") == "MethodCall" and (place_path(x["recv"]) or "") == "self" and not x.get("args"):
+                return True
+            if x.get("k") == "Index" and (place_path(x["base"]) or "").endswith("metadata") and (place_path(x["index"]) or "").endswith("curr_idx"):
+                return True
+        return False
     refreshed = False
     for n in walk(top_if["then"]):
         if n.get("k") == "Assign" and peel(n["lhs"]).get("k") == "Path":
-            if any(x.get("k") == "MethodCall" and x["method"] == "get_curr_func" for x in walk(n["rhs"])):
+            if reads_current(n["rhs"]):
                 refreshed = True
-    direct = any(x.get("k") == "MethodCall" and x["method"] == "get_curr_func" for c in _conjuncts(top_if["cond"]) for x in walk(c))
+    direct = any(reads_current(c) for c in _conjuncts(top_if["cond"]))
     r.ob(refreshed or direct)
     if not (refreshed or direct):
         r.violate("%s | stale current" % fn["path"], F.loc(fn), "the skip test does not re-read the current function after advancing")
@@ -331,6 +339,10 @@ def config_immutable(F):
                         phids = {pm["pat"].get("hid") for pm in fn.get("params", [])}
                         if x.get("k") == "Assign" and pp.count(".") == 1 and rhs.get("k") == "Path" and rhs.get("res", {}).get("hid") in phids:
                             hit = None  # wholesale re-configuration by the owner (reset_from_comp_iterator(metadata, skip_funcs))
+                        elif x.get("k") == "Assign" and pp.count(".") == 1 and rhs.get("k") in ("Call", "MethodCall") \
+                                and any(y.get("k") == "Path" and y.get("res", {}).get("hid") in phids for y in walk(rhs)) \
+                                and not any(y.get("k") == "Field" and y["name"] in CFG for y in walk(rhs)):
+                            hit = None  # the same, through a conversion of the parameter (e.g. pairs → entries)
                 if x.get("k") == "Call" and (x.get("callee") or "").endswith("mem::take") and x["args"]:
                     pp = place_path(x["args"][0]) or ""
                     if pp.startswith("self.") and pp.split(".")[1] in CFG:
